@@ -271,6 +271,10 @@ func panicFrames() string {
 func Guard(f func() error) (err error) {
 	defer func() {
 		if r := recover(); r != nil {
+			if m, ok := r.(string); ok && strings.HasPrefix(m, "HARNESS") {
+				err = fmt.Errorf("%s", m) // the harness could not do its job: inconclusive, never a violation
+				return
+			}
 			err = fmt.Errorf("panic: %v\n%s", r, panicFrames())
 		}
 	}()
